@@ -106,8 +106,62 @@ def swallowed_value_errors(ctx, rule):
     if n == 0:
         raise AnalysisError('no ValueError raise found on the configuration path (anchor moved)')
 
+
+def redeclared_traits(ctx, rule):
+    """build_config layers, per class of the reversed MRO, the class's OWN trait defaults and then its disk section, and
+    recursive_update treats None as "delete the key".  A more specific section class that re-declares an inherited option
+    with default None therefore wipes the value a less specific section (e.g. Web) configured for it.  Every re-declaration
+    of an inherited trait must carry a non-None default (like Server.port = 8888)."""
+    import ast as _ast
+    repo = ctx.repo
+    m = repo.modules[CFGM]
+    classes = {}
+    for n in m.tree.body:
+        if isinstance(n, _ast.ClassDef):
+            traits = {}
+            for st in n.body:
+                if isinstance(st, _ast.Assign) and len(st.targets) == 1 and isinstance(st.targets[0], _ast.Name):
+                    v = st.value
+                    while isinstance(v, _ast.Call) and isinstance(v.func, _ast.Attribute) and v.func.attr == 'tag':
+                        v = v.func.value
+                    if isinstance(v, _ast.Call):
+                        traits[st.targets[0].id] = (v, st)
+            classes[n.name] = ([_ast.unparse(b) for b in n.bases], traits)
+
+    def ancestors(c, seen=()):
+        out = []
+        for b in classes.get(c, ([], {}))[0]:
+            if b in classes and b not in seen:
+                out.append(b)
+                out += ancestors(b, seen + (b,))
+        return out
+    n = 0
+    for cname, (bases, traits) in sorted(classes.items()):
+        for tname, (call, st) in sorted(traits.items()):
+            anc = [a for a in ancestors(cname) if tname in classes[a][1]]
+            if not anc:
+                continue
+            n += 1
+            default = None
+            pos = [a for a in call.args]
+            ctor = _ast.unparse(call.func).split('.')[-1]
+            if ctor in ('Enum', 'CaselessStrEnum', 'UseEnum'):
+                default = pos[1] if len(pos) > 1 else None
+            else:
+                default = pos[0] if pos else None
+            for k in call.keywords:
+                if k.arg == 'default_value':
+                    default = k.value
+            is_none = default is None or (isinstance(default, _ast.Constant) and default.value is None)
+            ctx.inst(rule, '%s:%s' % (CFGM, cname), '%s re-declares %s (inherited from %s) with default %s' % (cname, tname, anc[0], _ast.unparse(default) if default is not None else 'None'),
+                     not is_none, 'the more specific default replaces the inherited one' if not is_none else
+                     'the default None of the re-declaration is layered after section %s and deletes the value configured there: for entry points under %s the '
+                     'option silently falls back to its built-in default although a less specific section sets it' % (anc[0], cname), st)
+    ctx.inst(rule, CFGM, '%d trait re-declaration(s) among %d section classes' % (n, len(classes)), True, 'each checked for a non-None default', None, nontrivial=False)
+
 def run(ctx):
     repo, cg = ctx.repo, ctx.cg
+    ctx.rule('R19.9', 'a section class re-declares an inherited option only with a non-None default (None is "delete" for the layering)', floor=2)
     ctx.rule('R19.8', 'no ValueError other than "unknown program name" can be raised while the configuration is read: the parser swallows ValueError and would silently run unconfigured', floor=2)
     ctx.rule('R19.7', 'name binding: every global name a function refers to is bound at module level or builtin, and every local is assigned on every path before it is read', floor=2)
     ctx.rule('R19.6', 'every exactly resolved call binds against its callee\'s signature (no missing/unknown/surplus argument on any arm)', floor=1)
@@ -384,3 +438,4 @@ def run(ctx):
     from ..names import name_binding
     name_binding(ctx, 'R19.7', ['nbdime.config', 'nbdime.args'])
     swallowed_value_errors(ctx, 'R19.8')
+    redeclared_traits(ctx, 'R19.9')
